@@ -37,7 +37,9 @@ CASE_TIMEOUT = {'quick': 300, 'thorough': 600}
 def plan(tier, seed):
     n = 140 if tier == 'quick' else 1500
     kinds = ['mesh', 'mesh', 'eol', 'long', 'raman', 'mesh', 'eol', 'gain', 'p2p', 'mesh']
-    return [{'idx': i, 'kind': kinds[i % len(kinds)]} for i in range(n)]
+    cases = [{'idx': i, 'kind': kinds[i % len(kinds)]} for i in range(n)]
+    # dedicated cases that reproduce a listed finding (gain mode, automatic type, saturating operator gain, input VOA)
+    return cases + [{'idx': n, 'kind': 'kf-invoa-gain'}, {'idx': n + 1, 'kind': 'kf-invoa-gain'}]
 
 
 def sim_json():
@@ -134,6 +136,24 @@ def build_inputs(rng, kind):
             if e['type_variety'] in ('std_medium_gain', 'std_low_gain', 'std_high_gain') and rng.random() < 0.7:
                 e['out_voa_auto'] = True
     raman_net = kind == 'raman'
+    if kind == 'kf-invoa-gain':
+        ej = G.eqpt_json()
+        ej['Span'][0]['power_mode'] = False
+        tj, _ = G.gen_topology(rng, n_sites=2, max_spans=1, user_amps=False, fused=False, max_km=130, min_km=120) \
+            if False else G.gen_topology(rng, n_sites=2, max_spans=1, user_amps=False, fused=False)
+        for e in tj['elements']:
+            if e['type'] == 'Fiber':
+                e['params']['length'] = G.rnd(rng, 120, 135, 3)
+        # a user-placed amplifier without type after the first fibre of each direction
+        for c in list(tj['connections']):
+            if c['from_node'].startswith('fiber') and c['to_node'].startswith('roadm'):
+                uid = f'amp after {c["from_node"]}'
+                tj['elements'].append({'uid': uid, 'type': 'Edfa', 'type_variety': '', 'metadata': G._loc(0, 0),
+                                       'operational': {'gain_target': 33, 'delta_p': None, 'tilt_target': 0, 'out_voa': 0,
+                                                       'in_voa': G.pick(rng, [1.0, 2.0])}})
+                tj['connections'].remove(c)
+                tj['connections'] += [{'from_node': c['from_node'], 'to_node': uid}, {'from_node': uid, 'to_node': c['to_node']}]
+        return ej, tj, rand_sim(rng, False), False
     if raman_net:
         tj = P.raman_topology(rng)
     elif kind == 'p2p':
@@ -165,6 +185,17 @@ def gsnr_of(equipment, network, src, dst, raman_net=False):
 
 
 FIG = [None]      # the other figures the last propagation ended with (OSNR, CD, PMD, PDL, latency, power)
+
+
+def is_invoa_drift(ej, tj, d):
+    """Witness predicate of a listed finding: gain mode, amplifier whose type was selected automatically, operator gain
+    and input VOA; the redesigned gain is lower by at most the input VOA (first reload only)."""
+    if ej['Span'][0]['power_mode'] or d.get('path', [None])[1:] != ['operational', 'gain_target']:
+        return False
+    o = next((e for e in tj['elements'] if e['uid'] == d['path'][0]), {})
+    iv = (o.get('operational') or {}).get('in_voa') or 0
+    return o.get('type') == 'Edfa' and not o.get('type_variety') and iv > 0 \
+        and (o.get('operational') or {}).get('gain_target') is not None and 0 < d['first'] - d['second'] <= iv + 1e-6
 
 
 def classify_exception(e, tbs, ctx):
@@ -220,10 +251,14 @@ def run_case(case, ctx):
                 try:
                     _, net0 = design_once(ej0, deepcopy(prev), sim, ctx, 'classifier', exported=True)
                     x0 = json.loads(json.dumps(network_to_json(net0)))
-                    if compare_exports(prev, x0) is None:
+                    d0 = compare_exports(prev, x0)
+                    if d0 is None or (r == 0 and is_invoa_drift(ej, tj, d0)):
+                        # (what remains without EOL is nothing, or the other listed finding)
                         mech = 'eol-added-again-on-redesign'
                 finally:
                     SimParams.set_params({})
+            if mech is None and r == 0 and is_invoa_drift(ej, tj, d):
+                mech = 'gain-mode-input-voa-first-reload-lowers-gain'
             ctx.violation('redesign-drift', f'round {r + 1}: export -> reload -> redesign changed the network: {d}',
                           mechanism=mech)
             if mech is None:
